@@ -12,3 +12,5 @@ open BV
 #print axioms C05_optional_omission
 #print axioms C05_zero_values
 #print axioms C05_omitted_renders_empty
+#print axioms tie_isCalGt
+#print axioms tie_verToCalInfo
